@@ -1543,15 +1543,13 @@ impl UntypedExpr {
                             errors.push(Some(TypeError::new(e, meta)));
                         }
                     }
-                    if struct_def.len() > fields.len() {
-                        for expected_field_name in struct_def.keys() {
-                            if !fields.iter().any(|(f, _)| f == expected_field_name) {
-                                let e = TypeErrorEnum::MissingStructField(
-                                    name.clone(),
-                                    expected_field_name.to_string(),
-                                );
-                                errors.push(Some(TypeError::new(e, meta)));
-                            }
+                    for expected_field_name in struct_def.keys() {
+                        if !fields.iter().any(|(f, _)| f == expected_field_name) {
+                            let e = TypeErrorEnum::MissingStructField(
+                                name.clone(),
+                                expected_field_name.to_string(),
+                            );
+                            errors.push(Some(TypeError::new(e, meta)));
                         }
                     }
                     if errors.is_empty() {
